@@ -173,7 +173,7 @@ def _solve_case(case, spl, ps):
         phi.getAllData()[:] = np.nan
         solver.solveEquation(phi, rho)
         out.append((tuple(L.dims_order), [int(x) for x in L.starts], [int(x) for x in L.ends], np.array(phi.getAllData(), copy=True)))
-        # history: the other entry point in between, then the very first right-hand side again -> bit-identical result expected
+        # history: the other entry point in between, then the very first right-hand side again -> the same result (up to rounding) expected
         phi.getAllData()[:] = np.nan
         solver.solveEquationForFunction(phi, lambda x: 1.0 + 0.3 * x)
         out.append((tuple(L.dims_order), [int(x) for x in L.starts], [int(x) for x in L.ends], np.array(phi.getAllData(), copy=True)))
@@ -257,7 +257,9 @@ def _solve_case(case, spl, ps):
                       % (p, nc, quad, A, worst[3], worst[4], worst[5], Pn, worst[1], worst[2]), witness=wit)
     evn["identity_checks"] += 1
     cls.add("%s/repeat-after-other-entry-point" % base)
-    if not lo.bits_equal(sols[5], sols[0]):
+    rep_scale = float(np.abs(sols[0]).max()) + 1e-300
+    rep_tol = C * rm.EPS * condmax * kap_i * rep_scale
+    if not (np.all(np.isfinite(sols[5])) and float(np.abs(sols[5] - sols[0]).max()) <= rep_tol):
         return result(VIOL, cls=sorted(cls), events={**ev, **evn}, key="C14:repeated-solve-differs",
                       what="solving the same right-hand side again on the same solver (after solveEquationForFunction in between) gives a different result (max change %.3g)"
                       % float(np.nanmax(np.abs(sols[5] - sols[0]))), witness=wit)
